@@ -94,6 +94,18 @@ Theorem C10_segment_bytes_stable : forall (tsw : list wframe -> bytes) c s seq r
 Proof. exact segment_bytes_stable. Qed.
 Print Assumptions C10_segment_bytes_stable.
 
+(* memory mode, while frames arrive: a listed segment is the only owner of its pooled buffer, the buffer is not
+   in the pool (whichever free buffer sync.Pool hands out: c_pick is arbitrary), and the buffer's bytes begin with
+   exactly the transport stream of that segment, i.e. the copy get() takes under the read lock is the segment *)
+Theorem C10_buffer_holds_segment : forall (tsw : list wframe -> bytes) c fs g,
+  let s := feed c fs (init c) in
+  In g (pl s) ->
+  ~ In (s_buf g) (free s) /\
+  (forall g', In g' (pl s ++ curl s) -> s_buf g' = s_buf g -> g' = g) /\
+  firstn (length (tsw (s_frames g))) (buffer_bytes tsw (s_buf g) s) = tsw (s_frames g).
+Proof. exact buffer_holds_segment. Qed.
+Print Assumptions C10_buffer_holds_segment.
+
 (* D19: the code before the repair (a view of the pooled buffer) does not have that property *)
 Theorem C10_segment_alias_refuted :
   exists r g, fetch d19_cfg 1 d19_before = Some r /\ find_seg 1 (pl d19_before) = Some g /\
